@@ -29,6 +29,11 @@ def gen(tier, seed):
                     add("chem_%s_%d_%d_%d" % (name, m, s, i), "c03-kinetics-flag", "dspecies_ok(%r, %d, %d, %s, %r, True)" % (name, s, i, xs, chem), ["pre: " + pre],
                         "with chemostat map %s: compute_dspeciesdt(species %d, cell %d) is exactly 0 if that very entry is flagged, else the law with flagged entries still acting as reactants / diffusion partners (%s)" % (chem, s, i, name),
                         args, timeout=150 if tier == "quick" else 600, viol="the kinetics functions consult the wrong chemostat flag (not the one of that species in that cell)")
+    for name, n in (("ab_grid321", 12), ("ab_grid232", 24), ("abc_tri", 9)):
+        add("flagpos_%s" % name, "c03-kinetics-flag-position", "flag_position_ok(%r, k, extra)" % name, ["pre: 0 <= k < %d and 0 <= extra <= 1" % n],
+            "the flag consulted by the kinetics functions is the one of that very species in that very cell on spaces with two / three extended axes (%s): with entry k flagged (alone, or with every third other entry) the derivative "
+            "of the state is the unflagged derivative zeroed at exactly the flagged entries - compute_dstatedt and compute_dspeciesdt, cell by index and by coordinates" % name, "k: int, extra: int",
+            viol="the kinetics functions read the chemostat flag of ANOTHER cell (or species): a flagged entry has a non-zero derivative or a free entry a spurious zero")
     for chem in ((0, 1, 0), (1, 0, 1), (0, 0, 0)):
         add("dxdtf_%s" % "".join(map(str, chem)), "c03-dxdtf-flag", "dxdtf_ok('abc1', (x0, x1, x2), %r)" % (chem,), ["pre: 0.001 < x0 < 1000 and 0.001 < x1 < 1000 and 0.001 < x2 < 1000"],
             "make_dxdtf: flagged species have zero derivative, the others the law (map %s)" % (chem,), "x0: float, x1: float, x2: float", timeout=300)
